@@ -17,9 +17,19 @@ func TestC02(t *testing.T) {
 	level := mc.Pick(0, 1)
 	maxLen := mc.Pick(4, 6)
 	topos := netsim.Family(level)
+	// long paths (more than 32 hop fields: the pointer fields use their full width) on linear topologies
+	longFrom := len(topos)
+	topos = append(topos, netsim.Chain(36, 1, 1, 0), netsim.Chain(12, 14, 12, 2))
+	if mc.Thorough() {
+		topos = append(topos, netsim.Chain(62, 1, 1, 1), netsim.Chain(21, 22, 21, 0), netsim.Chain(1, 40, 20, 2))
+	}
 	bubble(t, func(t *testing.T) {
 		var hops, paths int64
 		for ti, tp := range topos {
+			maxLen := maxLen
+			if ti >= longFrom {
+				maxLen = 64
+			}
 			if r.OutOfBudget() {
 				r.Capped(fmt.Sprintf("budget reached after %d of %d topologies", ti, len(topos)))
 				break
@@ -40,6 +50,9 @@ func TestC02(t *testing.T) {
 				for dst := range tp.ASes {
 					if src == dst {
 						continue
+					}
+					if ti >= longFrom && !(src < 2 || dst < 2 || src >= len(tp.ASes)-2 || dst >= len(tp.ASes)-2 || (src+dst)%5 == 0) {
+						continue // long chains: pairs involving an end or join AS plus a stripe
 					}
 					for _, all := range []bool{false, true} {
 						ps := pathsBetween(n, src, dst, all)
